@@ -446,7 +446,7 @@ Print Assumptions C18_require_equals_refuted.
 
 (** C18_complete_options needs its hypothesis [a_long a <> None]: a VISIBLE alias of an option without long name
     (a key of the parser) extends the word `--`, yet no candidate carries the option's id
-    (known finding C18-alias-without-long: the real engine behaves the same) *)
+    (known finding C18-alias-without-primary: the real engine behaves the same) *)
 Theorem C18_complete_options_alias_refuted : exists tbl w c pi l a s,
   assert_app c = true /\ complete_arg tbl w c pi ValueDone = COk l /\
   In a (c_args c) /\ a_hide a = false /\ In s (vis_aliases (a_aliases a)) /\
